@@ -832,7 +832,7 @@ func runClusterSearch(c *Ctx, r *Rng, shape [3]int) {
 	if len(cl.ids) > 1 {
 		bad := 0
 		first := ""
-		for i := 0; i < c.Pick(1500, 12000) && bad == 0; i++ {
+		for i := 0; i < c.Pick(4000, 20000) && bad == 0; i++ {
 			entry := cl.ids[i%len(cl.ids)]
 			failing := cl.ids[(i/len(cl.ids))%len(cl.ids)]
 			sctx, sno := newTrial()
@@ -844,6 +844,9 @@ func runClusterSearch(c *Ctx, r *Rng, shape [3]int) {
 				}
 				if to == failing {
 					atomic.AddInt32(&consulted, 1)
+					// fail a few microseconds after the others have answered (spin: a sleep is far coarser)
+					for t0 := time.Now(); time.Since(t0) < time.Duration(i%90)*time.Microsecond; {
+					}
 					return errStreamFault
 				}
 				return nil
